@@ -56,12 +56,16 @@ class Ctl:
         self.budget = None  # optional: raise SimInterrupt at the k-th seam call
         self.sink = None  # optional: list shared with recording arrays (C04)
         self.columns = False  # record the whole column of period t before/after every seam call (C17)
+        self.bus = None  # optional: list shared by several parties, global order of seam calls (C08)
+        self.tag = None
 
-    def arm(self, plan):
+    def arm(self, plan, bus=None, tag=None):
         self.plan = plan or {}
         self.log = []
         self.count = {}
         self.raised = []
+        self.bus = bus
+        self.tag = tag
 
     def __deepcopy__(self, memo):
         return Ctl()
@@ -204,6 +208,8 @@ def make_scripted(fsic, spec, bases=None, extra_attrs=None):
             'exc': None,
         }
         ctl.log.append(rec)
+        if ctl.bus is not None:
+            ctl.bus.append((ctl.tag, hook, int(tn), k, kw.get('iteration')))
         if ctl.budget is not None:
             ctl.budget -= 1
             if ctl.budget < 0:
